@@ -330,7 +330,7 @@ class Impl:
                 return str(b.rename(int(a[0]), d))
             return str(b.let(d, int(a[0])))
         if op == 'quantify':
-            keys = OrderedKeys(map(parse_key, split1(a[1])))
+            keys = shaped(map(parse_key, split1(a[1])), 1)
             return str(b.quantify(int(a[0]), keys, a[2] == '1'))
         if op == 'cube':
             d = {k: (v == '1') for k, v in parse_pairs(a[0])}
@@ -347,7 +347,7 @@ class Impl:
             b.collect_garbage()
             return '-'
         if op == 'gc_roots':
-            b.collect_garbage(list(map(int, split1(a[0]))))
+            b.collect_garbage(shaped(map(int, split1(a[0])), 2))
             return '-'
         if op == 'swap':
             o, n = b.swap(parse_key(a[0]), parse_key(a[1]))
@@ -380,7 +380,7 @@ class Impl:
                 assignment_str(d) for d in b.pick_iter(int(a[0]), care)))
         if op == 'descendants':
             return ','.join(map(str, sorted(
-                b.descendants(list(map(int, split1(a[0])))))))
+                b.descendants(shaped(map(int, split1(a[0])), 4)))))
         if op == 'to_expr':
             return b.to_expr(int(a[0]))
         if op == 'len':
@@ -396,7 +396,7 @@ class Impl:
             return str(b.level_of_var(a[0]))
         if op in ('image', 'preimage'):
             rn = {parse_key(k): parse_key(v) for k, v in parse_pairs(a[2])}
-            q = OrderedKeys(map(parse_key, split1(a[3])))
+            q = shaped(map(parse_key, split1(a[3])), 3)
             fn = _bdd.image if op == 'image' else _bdd.preimage
             return str(fn(int(a[0]), int(a[1]), rn, q, b, a[4] == '1'))
         if op == 'configure':
@@ -436,6 +436,24 @@ class Impl:
         if h is not None:
             return h(self, b, a)
         raise RuntimeError('unknown op ' + op)
+
+
+def shaped(items, salt):
+    """The same elements in the same order, as one of several kinds of iterable — a list, a
+    tuple, a one-shot generator, an iterator, a dict's key view: the public functions are
+    documented to take an iterable, so callers pass all of these.  The kind is a function of the
+    elements (reproducible, and the model never sees it)."""
+    items = list(items)
+    k = (sum(len(str(x)) + sum(map(ord, str(x))) for x in items) + salt) % 5
+    if k == 0:
+        return OrderedKeys(items)
+    if k == 1:
+        return tuple(items)
+    if k == 2:
+        return (x for x in items)
+    if k == 3:
+        return iter(items)
+    return dict.fromkeys(items).keys() if len(set(map(str, items))) == len(items) else OrderedKeys(items)
 
 
 class OrderedKeys(list):
